@@ -74,11 +74,12 @@ type dlScript struct {
 }
 
 type sreqSpec struct {
-	Old   bool   `json:"old,omitempty"`
-	K     string `json:"k"` // empty shorthdr badhdr garbage msg
-	NoMsg bool   `json:"nomsg,omitempty"`
-	S     int64  `json:"s"`
-	E     int64  `json:"e"`
+	Direct bool   `json:"direct,omitempty"` // srvlive only: EventGetBlocks sent straight to the blockchain module (as rpc does)
+	Old    bool   `json:"old,omitempty"`
+	K      string `json:"k"` // empty shorthdr badhdr garbage msg
+	NoMsg  bool   `json:"nomsg,omitempty"`
+	S      int64  `json:"s"`
+	E      int64  `json:"e"`
 }
 
 type vreqSpec struct {
@@ -235,7 +236,7 @@ func fixedDl(seed uint64) []netCase {
 var srvEdges = []int64{math.MinInt64, math.MinInt64 + 1, -(1 << 62), -(1 << 40), -257, -2, -1, 0, 1, 3, 5, 6, 200, 256, 257, 258, 1005,
 	1 << 40, 1 << 62, math.MaxInt64 - 256, math.MaxInt64 - 1, math.MaxInt64}
 
-func genSreq(r *hlib.Rng, guarded bool) sreqSpec {
+func genSreq(r *hlib.Rng, nonneg bool) sreqSpec {
 	q := sreqSpec{Old: r.Chance(1, 2), K: "msg"}
 	switch r.Intn(12) {
 	case 0:
@@ -256,27 +257,29 @@ func genSreq(r *hlib.Rng, guarded bool) sreqSpec {
 			q.E = q.S + int64(r.Range(-2, 300)) // may overflow: fine
 		}
 	}
-	if guarded && q.S < 0 {
-		q.S = -(q.S + 1) // non-negative start: the guard of C33_serve_request_partial
+	if nonneg && q.S < 0 {
+		q.S = -(q.S + 1) // non-negative start: more requests get past the first test
 	}
 	return q
 }
 
-func genSrv(r *hlib.Rng, seed uint64, index int, guarded bool) netCase {
+func genSrv(r *hlib.Rng, seed uint64, index int, nonneg bool) netCase {
 	c := netCase{Net: "srv", Seed: seed, Index: index, Tip: int64(r.Range(0, 6))}
-	if guarded {
-		c.Name = "guarded"
+	if nonneg {
+		c.Name = "nonneg"
 	}
 	if r.Chance(1, 6) {
 		c.Mode = int64(r.Range(1, 2))
 	}
 	for n := r.Range(2, 6); n > 0; n-- {
-		c.Reqs = append(c.Reqs, genSreq(r, guarded))
+		c.Reqs = append(c.Reqs, genSreq(r, nonneg))
 	}
 	return c
 }
 
-// the live case: real blockchain module behind the handlers
+// the live case: real blockchain module behind the handlers. The ranges whose int64 difference
+// wraps (witness of repaired finding 4: the sixth request used to end in a fatal allocation) go
+// through both handlers and then straight to the blockchain module through the queue.
 func liveSrv(seed uint64) netCase {
 	return netCase{Net: "srvlive", Name: "range-wraps", Seed: seed, Reqs: []sreqSpec{
 		{Old: true, K: "msg", S: 0, E: 0},
@@ -285,6 +288,16 @@ func liveSrv(seed uint64) netCase {
 		{Old: false, K: "msg", S: -(1 << 62), E: 1 << 62},
 		{Old: true, K: "msg", S: 0, E: 300},
 		{Old: true, K: "msg", S: -(1 << 40), E: math.MaxInt64},
+		{Old: false, K: "msg", S: -(1 << 40), E: math.MaxInt64},
+		{Old: true, K: "msg", S: 0, E: 0},
+		{Direct: true, K: "msg", S: 0, E: 0},
+		{Direct: true, K: "msg", S: -5, E: 0},
+		{Direct: true, K: "msg", S: 0, E: 1000},
+		{Direct: true, K: "msg", S: -1, E: math.MaxInt64},
+		{Direct: true, K: "msg", S: -(1 << 62), E: 1 << 62},
+		{Direct: true, K: "msg", S: math.MinInt64, E: 0},
+		{Direct: true, K: "msg", S: -(1 << 40), E: math.MaxInt64},
+		{Direct: true, K: "msg", S: 0, E: 999},
 		{Old: true, K: "msg", S: 0, E: 0},
 	}}
 }
